@@ -397,7 +397,20 @@ func TestC16(t *testing.T) {
 		if b.sm != nil {
 			ba.impl = newMapAuto(b)
 		} else {
-			rep, err := learnAutomaton(b)
+			// learning drives real objects over pipes; under heavy machine load a probe
+			// can find its connection already shut down. That is a harness hiccup, not a
+			// verdict: learn again (the automaton is deterministic, so a repeated attempt
+			// that succeeds is as good as a first one) before giving up as inconclusive.
+			var rep *learnReport
+			var err error
+			for attempt := 1; attempt <= 4; attempt++ {
+				rep, err = learnAutomaton(b)
+				if err == nil {
+					break
+				}
+				rec.Class("learn_retry")
+				time.Sleep(time.Duration(attempt) * 300 * time.Millisecond)
+			}
 			if err != nil {
 				t.Fatalf("HARNESS: %v", err)
 			}
